@@ -36,7 +36,18 @@ func TestMain(m *testing.M) {
 			kit.KillCount.Add(1)
 		}
 	}()
+	// does backend.go finish an interrupted commit at start-up? (kit.NewNode mirrors backend.go)
+	if src, err := os.ReadFile(filepath.Join(repoRoot(), "mainchain", "backend.go")); err == nil {
+		kit.FinishInterruptedCommit = strings.Contains(string(src), "blockExec.ApplyBlock(state, meta.BlockID, block)")
+	}
 	os.Exit(m.Run())
+}
+
+func repoRoot() string {
+	if r := os.Getenv("VERIF_REPO"); r != "" {
+		return r
+	}
+	return "/repo"
 }
 
 func drawCfg(t *core.Tape, opt core.Options) RunCfg {
@@ -115,6 +126,27 @@ func drawCfg(t *core.Tape, opt core.Options) RunCfg {
 		c.EvForger = t.Chance(1, 4)
 	}
 	c.Filters = opt.Int("faults", 1) > 0 && t.Chance(1, 2)
+	if opt.Mode == "crash" {
+		c.NVal = []int{1, 4, 4, 2}[t.Draw(4)]
+		c.Stakes = c.Stakes[:0]
+		for i := 0; i < c.NVal; i++ {
+			c.Stakes = append(c.Stakes, 12_500_000)
+		}
+		c.Heights = 3 + t.Draw(2)
+		c.CacheKinds = c.CacheKinds[:0]
+		for i := 0; i < c.NVal; i++ {
+			c.CacheKinds = append(c.CacheKinds, []string{"archive", "default", "archive-snap", "snap", "preimages", "tiny-cache"}[t.Weighted(4, 3, 1, 1, 1, 1)])
+		}
+		c.WAL = true
+		c.ByzIdx, c.ByzStrat, c.NByz = nil, nil, 0
+		c.Forger, c.Relabel, c.Garbage, c.EvForger, c.Filters, c.Partition = false, false, false, false, false, false
+		c.DropPct, c.DupPct, c.DelayPct, c.LongPct, c.CorruptPct = 0, 0, 0, 0, 0
+		if c.NVal == 1 {
+			c.SkipCommit = false
+		}
+		c.TimeoutMs = []int{200, 100}[t.Draw(2)]
+		c.Galaxias = false
+	}
 	// per-property emphasis (after all draws, so the tape layout is the same for every property)
 	switch opt.Property {
 	case "C18":
@@ -195,7 +227,19 @@ func (engine) Run(t *testing.T, tape *core.Tape, opt core.Options) (res *core.Ru
 				panic(r)
 			}
 		}()
-		synctest.Test(t, func(t *testing.T) { s.run() })
+		synctest.Test(t, func(t *testing.T) {
+			if opt.Mode == "crash" {
+				defer func() {
+					if r := recover(); r != nil {
+						s.res.Infra = fmt.Sprintf("simulator panic: %v", r)
+						panic(r)
+					}
+				}()
+				s.runCrash()
+				return
+			}
+			s.run()
+		})
 	}()
 	return res
 }
@@ -277,7 +321,7 @@ func (s *Sim) run() {
 	}
 	budget := time.Duration(c.Heights) * time.Duration(c.TimeoutMs) * time.Millisecond * 60
 	s.loop(goal, budget)
-	if s.res.Failed() || s.res.Inconclusive {
+	if s.failedNow() || s.res.Inconclusive {
 		return
 	}
 	s.phase2()
@@ -337,7 +381,7 @@ func (s *Sim) phase2() {
 		per += time.Duration(s.cfg.EmptyIntv) * time.Millisecond
 	}
 	s.loop(goal, time.Duration(rounds)*per*3)
-	if s.res.Failed() {
+	if s.failedNow() {
 		return
 	}
 	if s.res.Inconclusive {
